@@ -34,6 +34,25 @@ CLAIMS = {
                 'evaluated by TLC on recorded observations of generated programs with measurements on interleaved qubits, tags, nested registries and unrolling, with and without earlier index reads.', '4 (C07)'),
     'C11': circ('Flatten post-conditions (same leaf objects, no block left, in place, second flatten changes nothing) checked by TLC on recorded flatten events of generated nested programs and a directed family; '
                 'observations after flattening are judged by the listing / equation clauses.', '4 (C11)'),
+    'C03': circ('History clauses: (a) every reported time equals a memo-free re-evaluation taken in the same snapshot (C03.memo), (b) twin runs: every TLC-generated history with '
+                'intermediate observations (battery, compact/non-compact drawing, Stim export, listing) is executed again in a fresh process with those observations erased and TLC '
+                '(ErasureTrace) compares the final batteries of every circuit field by field; the specification\'s observation actions leave the abstract state unchanged (Independence).', '4 (C03)'),
+    'C12': dict(text='IndexKernel.tla states block lengths, starts, categories, calibration offsets, slicing and the estimate; TLC checks tiling / disjointness / cover / translation / estimate-inverse for every '
+                     'list of distinct round counts in the bounded universe (exhaustive) and validates, one implementation test per specification state, every getter of the real kernels.',
+                ref='4 (C12)', note='Trusted: TLC/SANY, Json module, table driver. Universe: lists of <=3 (quick) / <=5 (thorough) distinct counts from 0..3 / 0..5, both heralded settings, repetitions <=2 / <=3, plus 40 random larger descriptions.',
+                technique='TLA+ spec IndexKernel.tla; TLC exhaustive model check + TLC validation of a table recorded from the real kernels'),
+    'C13': dict(text='The same IndexKernel.tla arrays are compared by TLC with BOTH the real experiment kernel getters and the tagged per-ancilla acquisition indices of the real multi-round circuit, '
+                     'for every round list in the bounded universe and code distances 2..3 (quick) / 2..4 (thorough); the documented 0-round difference is written into the clause.',
+                ref='4 (C13)', note='Trusted: TLC/SANY, Json module, table driver; circuits are built by the real constructor (apply_modifiers + flatten per block).',
+                technique='TLA+ spec IndexKernel.tla; TLC validation of recorded circuit indices and kernel indices against the specification'),
+    'C16': dict(text='Surface17.tla owns the device tables and defines Accept / NeedsPark; TLC checks design theorems over all gate sets of <=3 (quick) / <=4 (thorough) edges and validates a table of the real '
+                     'get_mutually_allowed (two orders) / get_requires_parking verdicts covering every subset of <=2 / <=4 edges, the code\'s device tables, and generator runs (each gate once, only accepted steps).',
+                ref='4 (C16)', note='Trusted: TLC/SANY, Json module, table driver. Exhaustive within the stated subset size.',
+                technique='TLA+ spec Surface17.tla; TLC exhaustive model check + TLC validation of a table recorded from the real code'),
+    'C17': dict(text='Layouts are behaviours: each recorded layer (gates, parks) of the three shipped repetition layouts and of descriptions derived by the real from_connectivity for contiguous sub-chains, small subsets '
+                     'and random subsets/orderings is validated by TLC against Surface17.tla (device edges, disjoint gates, no park-and-gate, required parking, each parity edge once, derived = filtered base, index map bijective).',
+                ref='4 (C17)', note='Trusted: TLC/SANY, Json module, table driver.',
+                technique='TLA+ spec Surface17.tla; TLC validation of recorded layouts / derived descriptions as behaviours'),
     'C19': dict(
         text='TLC enumerates every pair/triple of channel identifiers, every pair of edges and every short sequence of the '
              'specification universe (Ident.tla, exhaustive) and checks the relational laws; the same universe is evaluated on the '
